@@ -24,6 +24,7 @@ type Node struct {
 	S    string  `json:"s,omitempty"`
 	N    int     `json:"n,omitempty"`
 	B    bool    `json:"b,omitempty"`
+	M    int     `json:"m,omitempty"` // shape instances: the condition bits
 	Kids []*Node `json:"kids,omitempty"`
 }
 
@@ -37,6 +38,9 @@ func (n *Node) write(sb *strings.Builder) {
 	sb.WriteString(n.K)
 	if n.S != "" || n.N != 0 || n.B {
 		fmt.Fprintf(sb, "[%q,%d,%v]", n.S, n.N, n.B)
+	}
+	if n.K == "shape" {
+		fmt.Fprintf(sb, "{conds %v: %s}", shapeConds(n.M), describeShape(shapeASTs[n.N%len(shapeASTs)]))
 	}
 	if len(n.Kids) > 0 {
 		sb.WriteString("(")
@@ -76,7 +80,13 @@ type Universe struct {
 func newUniverse(nOnce int) *Universe {
 	u := &Universe{}
 	for i := 0; i < nOnce; i++ {
-		u.Onces = append(u.Onces, templ.NewOnceHandle())
+		if i == 0 {
+			u.Onces = append(u.Onces, templ.NewOnceHandle())
+		} else {
+			// handles that were declared, not constructed (var h templ.OnceHandle): distinct
+			// variables are distinct handles
+			u.Onces = append(u.Onces, &templ.OnceHandle{})
+		}
 	}
 	return u
 }
@@ -246,6 +256,14 @@ func hwClear(inner templ.Component) templ.Component {
 	})
 }
 
+// hwFlush is a hand-written layer that renders templ.Flush with a block of its own into a
+// writer that cannot be flushed (generated code always hands Flush a flushable buffer).
+func hwFlush(body templ.Component) templ.Component {
+	return templ.ComponentFunc(func(ctx context.Context, w io.Writer) error {
+		return templ.Flush().Render(templ.WithChildren(ctx, body), struct{ io.Writer }{w})
+	})
+}
+
 // hwIgnore is a hand-written callee that never looks at its children (like templ.Raw).
 func hwIgnore(id string) templ.Component {
 	return templ.ComponentFunc(func(ctx context.Context, w io.Writer) error {
@@ -389,8 +407,12 @@ func (e *Env) Build(n *Node) templ.Component {
 		return hwNonce(e.kid(n, 0))
 	case "hwclear":
 		return hwClear(e.kid(n, 0))
-	case "rawscript", "usescript", "onclick", "ontwo", "oncond", "onhx", "classof", "classtwo", "classcond":
+	case "rawscript", "usescript", "onclick", "ontwo", "oncond", "onhx", "classof", "classtwo", "classcond", "ashape":
 		return e.buildC12(n)
+	case "shape":
+		return e.buildShape(n)
+	case "hwflush":
+		return hwFlush(e.kid(n, 0))
 	}
 	panic("unknown node kind " + n.K)
 }
@@ -410,7 +432,7 @@ func genSpec(t *kernel.Tape, budget *int, depth int) *Node {
 	}
 	leaf := []string{"lit", "lit0", "lit100", "text", "textmulti", "attr", "boolattr", "spread", "condattr", "href", "style", "comment", "rawel", "scriptexpr", "raw", "hwfail", "block", "noslot", "jsonscript"}
 	big := []string{"lit4000", "lit4090", "lit6000"}
-	inner := []string{"seq", "el", "ifelse", "switch", "callnoblock", "callblock", "passdownblock", "flush", "join", "gojoin", "hwwrap", "oncebody", "slotcall", "slottwicecall", "togohtml", "ownbufcall"}
+	inner := []string{"seq", "el", "ifelse", "switch", "callnoblock", "callblock", "passdownblock", "flush", "join", "gojoin", "hwwrap", "oncebody", "slotcall", "slottwicecall", "togohtml", "ownbufcall", "shape", "shape"}
 	mk := func(k string) *Node {
 		n := &Node{K: k}
 		switch k {
@@ -473,6 +495,21 @@ func genSpec(t *kernel.Tape, budget *int, depth int) *Node {
 		return &Node{K: "flush", Kids: []*Node{sub()}}
 	case "togohtml":
 		return &Node{K: "togohtml", Kids: []*Node{sub()}}
+	case "shape": // a member of the seeded template family, called with or without a block
+		si := t.Choose(len(shapeASTs), "shape-pre")
+		fan := max(1, shapeFan(shapeASTs[si]))
+		if genMult*fan > 32 {
+			return mk("lit") // documents multiply through nested loops and repeated blocks
+		}
+		old := genMult
+		genMult *= fan
+		sh := genShape(t, "sh"+fmt.Sprint(t.Choose(100, "id")), sub)
+		sh.N = si
+		genMult = old
+		if t.Bool("shape-with-block") {
+			return &Node{K: "callblock", Kids: []*Node{sh, sub()}}
+		}
+		return sh
 	case "ownbufcall":
 		return &Node{K: "callblock", Kids: []*Node{{K: "hwchildrenbuf", S: "o" + fmt.Sprint(t.Choose(100, "id"))}, sub()}}
 	case "hwwrap":
